@@ -243,6 +243,7 @@ func runControls(dir string) *controlResult {
 		{"STALE-LEN", map[string]bool{"(*recBuf).BadStaleLen": true}},
 		{"SEARCH-HIT", map[string]bool{"BadSearchNoHitTest": true, "GoodSearchHitTest": false}},
 		{"ADVANCE-LOST", map[string]bool{"BadAdvanceLost": true, "GoodAdvanceKept": false}},
+		{"VALUE-RECORD-COMPLETE", map[string]bool{"BadValueSkipped": true, "GoodEveryValue": false}},
 	} {
 		rule := rules[rc.rule]
 		if rule == nil {
